@@ -2,10 +2,11 @@ package ksw
 
 import (
 	"bytes"
-	"sort"
+	"encoding/json"
 	"errors"
-	"strconv"
 	"fmt"
+	"sort"
+	"strconv"
 	"strings"
 	"testing"
 	"time"
@@ -327,6 +328,18 @@ func (C20) Run(t *testing.T, plan *kernel.Plan, keepLog bool) *kernel.Result {
 					return
 				}
 			}
+			// JSON entries: edits that keep the entry well-formed JSON but change what it says
+			if format == logging.JSONFormatString {
+				for _, ja := range c20JSONEdits(lines[i]) {
+					if _, perr := parser.ParseEntry(ja.line); perr != nil {
+						continue
+					}
+					alt = append(append(append([]string{}, lines[:i]...), ja.line), lines[i+1:]...)
+					if !expectFail(fmt.Sprintf("%s line %d", ja.what, i), alt, i) {
+						return
+					}
+				}
+			}
 			// delete an entry that is followed by another entry of its chain
 			if i+1 < len(lines) && protected[i+1] && chainOf[i+1] == chainOf[i] {
 				alt = append(append([]string{}, lines[:i]...), lines[i+1:]...)
@@ -390,4 +403,74 @@ func (C20) Run(t *testing.T, plan *kernel.Plan, keepLog bool) *kernel.Result {
 		w.Res.Trivial = len(lines) < 3
 	})
 	return w.Finish()
+}
+
+type c20JSONEdit struct{ what, line string }
+
+// c20JSONEdits are alterations of one JSON log entry that leave it a well-formed entry with the same
+// integrity tag: a value changes its type (3 <-> "3"), two fields are merged into one whose name swallows
+// the first field's value, a field is hidden inside the value of its neighbour.
+func c20JSONEdits(line string) []c20JSONEdit {
+	var m map[string]json.RawMessage
+	if err := json.Unmarshal([]byte(line), &m); err != nil {
+		return nil
+	}
+	var keys []string
+	for k := range m {
+		if k != logging.IntegrityKey && k != logging.AuditLogChainKey {
+			keys = append(keys, k)
+		}
+	}
+	sort.Strings(keys)
+	encode := func(mm map[string]json.RawMessage) string {
+		b, err := json.Marshal(mm)
+		if err != nil {
+			return ""
+		}
+		return string(b)
+	}
+	clone := func() map[string]json.RawMessage {
+		c := map[string]json.RawMessage{}
+		for k, v := range m {
+			c[k] = v
+		}
+		return c
+	}
+	var out []c20JSONEdit
+	for _, k := range keys {
+		v := string(m[k])
+		var asNum json.Number
+		var asStr string
+		switch {
+		case json.Unmarshal(m[k], &asStr) == nil:
+			// a string that reads as a number becomes the number
+			d := json.NewDecoder(strings.NewReader(asStr))
+			d.UseNumber()
+			if d.Decode(&asNum) == nil && asNum.String() == asStr && asStr != "" {
+				c := clone()
+				c[k] = json.RawMessage(asStr)
+				out = append(out, c20JSONEdit{"json-string-to-number", encode(c)})
+			}
+		case len(v) > 0 && (v[0] == '-' || v[0] >= '0' && v[0] <= '9') || v == "true" || v == "false" || v == "null":
+			c := clone()
+			q, _ := json.Marshal(v)
+			c[k] = q
+			out = append(out, c20JSONEdit{"json-value-to-string", encode(c)})
+		}
+		if len(out) >= 2 {
+			break
+		}
+	}
+	// merge two neighbouring fields (in the order of names) into one field
+	for i := 0; i+1 < len(keys); i++ {
+		k1, k2 := keys[i], keys[i+1]
+		c := clone()
+		delete(c, k1)
+		delete(c, k2)
+		merged := k1 + logging.JSONKeyValueDelimiter + string(m[k1]) + logging.JSONKeyValueDelimiter + logging.JSONKeyValueDelimiter + k2
+		c[merged] = m[k2]
+		out = append(out, c20JSONEdit{"json-merge-fields", encode(c)})
+		break
+	}
+	return out
 }
